@@ -1,7 +1,9 @@
 ---- MODULE MC_TxBuilder ----
 (* Bounded instance of TxBuilder and scenario generator: every order of issuing up  *)
 (* to MaxOps operations out of a pool (inputs, outputs, deposit / refund            *)
-(* certificates, withdrawal, mint, burn, donation), then balancing and building.    *)
+(* certificates, withdrawal, mint, burn, mint-with-output, donation, fee requests), *)
+(* the balancing call at ANY point of the history (further calls may follow it),    *)
+(* and the validating build at the end.                                             *)
 (* Units are mapped to lovelace amounts that straddle the CBOR width classes.       *)
 EXTENDS TxBuilder, TraceLib, BigNat
 B(n) == ToBE(n, 0)
@@ -10,7 +12,9 @@ Lov(c) == MulSmall(FromSmall(2000000), c)
 Pool == { [op |-> "AddInput", id |-> 1, c |-> 3, a |-> 0], [op |-> "AddInput", id |-> 2, c |-> 2500, a |-> 5], [op |-> "AddInput", id |-> 3, c |-> 1, a |-> 0],
           [op |-> "AddOutput", id |-> 1, c |-> 1, a |-> 0], [op |-> "AddOutput", id |-> 2, c |-> 2, a |-> 2],
           [op |-> "Deposit", c |-> 1, a |-> 0], [op |-> "Refund", c |-> 1, a |-> 0], [op |-> "Withdraw", c |-> 1, a |-> 0],
-          [op |-> "Mint", c |-> 0, a |-> 3], [op |-> "Burn", c |-> 0, a |-> 2], [op |-> "MintOut", c |-> 1, a |-> 4], [op |-> "Donate", c |-> 1, a |-> 0] }
+          [op |-> "Mint", c |-> 0, a |-> 3], [op |-> "Burn", c |-> 0, a |-> 2], [op |-> "MintOut", c |-> 1, a |-> 4], [op |-> "Donate", c |-> 1, a |-> 0],
+          \* fee requests: a fixed fee below / at / above what the transaction needs, a requested minimum above it
+          [op |-> "SetFee", c |-> 0, a |-> 0], [op |-> "SetFee", c |-> 1, a |-> 0], [op |-> "SetFee", c |-> 3, a |-> 0], [op |-> "SetMinFee", c |-> 2, a |-> 0] }
 Asset(q) == IF q = 0 THEN <<>> ELSE <<[mp |-> 9, n |-> <<66>>, q_n |-> B(FromSmall(q))]>>
 JOp(o) ==
   CASE o.op = "AddInput"  -> [op |-> "AddInput", u |-> o.id]
@@ -22,14 +26,20 @@ JOp(o) ==
     [] o.op = "Burn"      -> [op |-> "SetMint", mints |-> <<[mp |-> 9, n |-> <<66>>, amt |-> [neg |-> TRUE, mag_n |-> B(FromSmall(o.a))]]>>]
     [] o.op = "MintOut"   -> [op |-> "AddMintAssetAndOutput", mp |-> 9, n |-> <<66>>, amt |-> [neg |-> FALSE, mag_n |-> B(FromSmall(o.a))], to |-> [kind |-> "ent", k |-> 12], coin_n |-> B(Lov(o.c))]
     [] o.op = "Donate"    -> [op |-> "SetDonation", n |-> B(Lov(o.c))]
+    [] o.op = "SetFee"    -> [op |-> "SetFee", n |-> B(Lov(o.c))]
+    [] o.op = "SetMinFee" -> [op |-> "SetMinFee", n |-> B(Lov(o.c))]
+    [] o.op = "AddChange" -> [op |-> "AddChange", to |-> [kind |-> "ent", k |-> 15]]
+    [] o.op = "Build"     -> [op |-> "Build"]
 \* Deposit and Refund both go through SetCerts, Mint and Burn through SetMint: the later call replaces the earlier one (the
 \* model's Apply says the same), and MintOut adds to whatever mint is held at that moment - every order is a scenario
 Utxo == << [u |-> 1, addr |-> [kind |-> "ent", k |-> 1], value |-> [coin_n |-> B(Lov(3)), assets |-> <<>>]],
            [u |-> 2, addr |-> [kind |-> "base", k |-> 2], value |-> [coin_n |-> B(Lov(2500)), assets |-> Asset(5)]],
            [u |-> 3, addr |-> [kind |-> "byron", k |-> 3], value |-> [coin_n |-> B(Lov(1)), assets |-> <<>>]] >>
 PP == [a |-> 44, b |-> 155381, cpb |-> 4310, maxval |-> 5000, maxtx |-> 16384, kd_n |-> B(Lov(1)), pd_n |-> B(Lov(250)), prefer_pure_change |-> FALSE, no_burn |-> FALSE]
-EmitScn == (phase = "ops" /\ pending = {}) =>
-   Emit([t |-> "SCN", pp |-> PP, utxo |-> Utxo,
-         ops |-> [i \in 1..Len(issued) |-> JOp(issued[i])] \o <<[op |-> "AddChange", to |-> [kind |-> "ent", k |-> 15]], [op |-> "Build"], [op |-> "BuildAgain"]>>])
+\* one scenario per finished behaviour: the calls in the order the model made them (balancing at any point, further calls after
+\* it, the validating build last), then a second build
+EmitScn == phase \in {"built", "refused"} =>
+   Emit([t |-> "SCN", pp |-> PP, utxo |-> Utxo, model |-> phase,
+         ops |-> [i \in 1..Len(issued) |-> JOp(issued[i])] \o <<[op |-> "BuildAgain"]>>])
 StateConstraint == TRUE
 ====
